@@ -124,8 +124,8 @@ def documented : List Entry := [
   ⟨"debug", "fake_traceback", 0, ["BaseException"], [], false, .internal,
     "exec of the synthetic `raise __jinja_exception__` line that manufactures a traceback entry; the exception raised there is the original one and is re-raised by handle_exception"⟩,
   ⟨"debug", "get_template_locals", 0, ["ValueError"], [], false, .internal, "parsing `l_<depth>_<name>` local variable names of a template frame"⟩,
-  ⟨"nativetypes", "native_concat", 0, ["ValueError", "SyntaxError", "MemoryError"], [], false, .default_,
-    "literal_eval of the already rendered string (no data hook runs): not a Python literal, keep the string"⟩,
+  ⟨"nativetypes", "native_concat", 0, ["ValueError", "SyntaxError", "MemoryError", "TypeError"], [], false, .default_,
+    "literal_eval of the already rendered string (no data hook runs): not a Python literal (TypeError: an unhashable set element or dict key, /repo 2fb0b13), keep the string"⟩,
   ⟨"utils", "LRUCache.get", 0, ["KeyError"], [], false, .default_, "cache miss (keys are template names / configuration tuples)"⟩,
   ⟨"utils", "LRUCache.setdefault", 0, ["KeyError"], [], false, .internal, "cache miss"⟩,
   ⟨"utils", "LRUCache.__getitem__", 0, ["ValueError"], [], false, .internal, "queue bookkeeping of the cache"⟩,
